@@ -1,17 +1,24 @@
 #!/bin/bash
-# Runs every seeded change under /verif/seeded against its property's quick check (and any extra ids given in meta "also").
-# Writes /verif/seeded/MATRIX.md. /repo must be clean; each patch is applied and reverted.
+# Runs every seeded change under /verif/seeded against ALL properties' quick rules (dry run: no evidence written).
+# Writes /verif/seeded/MATRIX.md. The tree ($REPO, default /repo) must be clean; each patch is applied and reverted.
+REPO=${REPO:-/repo}
 cd /verif
 out=seeded/MATRIX.md
-echo "| seeded change | property | own check | detecting rule(s) |" > $out
-echo "|---|---|---|---|" >> $out
+echo "| seeded change | property | own check | own rule(s) firing | other properties' rules firing |" > $out
+echo "|---|---|---|---|---|" >> $out
+if [ -n "$(git -C $REPO status --porcelain)" ]; then echo "$REPO is dirty, refusing"; exit 2; fi
 for d in seeded/C*-m*; do
   prop=$(python3 -c "import json;print(json.load(open('$d/meta.json'))['property'])")
   patch=$(python3 -c "import json;print(json.load(open('$d/meta.json'))['patch'])")
-  res=$(./tools/seedtest.sh /verif/$d/$patch $prop 2>&1)
-  rc=$(echo "$res" | grep -o "exit=[0-9]*" | head -1)
-  rules=$(echo "$res" | grep -oE "(VIOLATION|UNDECIDED|UNRESOLVED) C[0-9]+\.R[0-9]+" | awk '{print $2}' | sort -u | tr '\n' ' ')
-  if echo "$res" | grep -q "does not apply"; then rc="PATCH-DOES-NOT-APPLY"; fi
-  echo "| $(basename $d) | $prop | $rc | $rules |" >> $out
-  echo "$(basename $d) $rc $rules"
+  if ! git -C $REPO apply /verif/$d/$patch 2>/dev/null; then
+    echo "| $(basename $d) | $prop | PATCH-DOES-NOT-APPLY | | |" >> $out; echo "$(basename $d) PATCH-DOES-NOT-APPLY"; continue
+  fi
+  res=$(/verif/bin/conduitlint -repo $REPO -verif /verif -prop ALL 2>&1)
+  git -C $REPO checkout -q -- . ; git -C $REPO clean -fdq
+  all=$(echo "$res" | grep -oE "^\s+(VIOLATION|UNDECIDED|UNRESOLVED) C[0-9]+\.R[0-9]+" | awk '{print $2}' | sort -u)
+  XX
+  oth=$(echo "$all" | grep -v "^$prop\." | tr '\n' ' ')
+  if [ -n "$own" ]; then v="detected"; elif [ -n "$oth" ]; then v="detected (other property)"; else v="NOT DETECTED"; fi
+  echo "| $(basename $d) | $prop | $v | $own | $oth |" >> $out
+  echo "$(basename $d) $v $own / $oth"
 done
